@@ -81,3 +81,33 @@ class c06_ResetOk : public c06_ResetRoot {
 };
 bool c06_reset_use(c06_ResetBad *a, c06_ResetOk *b) { return a->Run(1) && b->Run(2); }
 }  // namespace verif_control
+
+// ---- UNINIT (C06) ------------------------------------------------------------
+#include <cstdlib>
+namespace verif_control {
+// partial filler: stops at the first item that does not parse
+static bool c06_parse_some(const char *s, int n, float *out) {
+  char *next;
+  for (int i = 0; i < n; ++i) {
+    const float v = std::strtof(s, &next);
+    if (s == next) return true;
+    s = next;
+    out[i] = v;
+  }
+  return true;
+}
+float c06_uninit_bad(const char *s, int n) {
+  std::unique_ptr<float[]> scratch(new float[n]);
+  c06_parse_some(s, n, scratch.get());
+  float sum = 0;
+  for (int i = 0; i < n; ++i) sum += scratch[i];
+  return sum;
+}
+float c06_uninit_ok(const float *src, int n) {
+  const std::unique_ptr<float[]> scratch(new float[n]);
+  for (int i = 0; i < n; ++i) scratch[i] = src[i] * 2;
+  float sum = 0;
+  for (int i = 0; i < n; ++i) sum += scratch[i];
+  return sum;
+}
+}  // namespace verif_control
